@@ -15,10 +15,10 @@ A_EXTRACT = 'A-extract: the declared extractor rewrites (listed per unit under c
 A_PTREQ = 'A-ptreq: `impl PartialEq for BddPtr` (address comparison) is modelled by an uninterpreted relation eq_spec with three assumed facts: it implies structural equality, it is an equivalence relation, and it commutes with `neg`; the converse (structurally equal nodes share an address) is never assumed'
 A_CELL = 'A-cell/A-unsafe: the RefCell fields of RobddBuilder are replaced by trusted accessors (trusted/robdd_cells.rs): the order is constant during the functions under contract; the apply-table invariant is ASSUMED where the table is read and PROVED where it is written; the unique table returns a reference to a node equal to its argument (proved for the real table in unit `table` as `*r == elem`; bumpalo never moves or frees it: A-bump)'
 A_TERM = 'A-term: termination is not claimed for the recursive builder functions (exec_allows_no_decreases_clause); contracts are partial correctness'
-A_CAP = 'A-cap: capacity exponents < 62 and fill counters < usize::MAX (Lru::in_range); the allocation of 2^cap slots aborts long before'
+A_CAP = 'A-cap: Lru capacity exponent < 31 before a growth and fill counter < usize::MAX (Lru::in_range, a precondition); 2^31 slots of >= 40 bytes are not allocatable on the machines the library targets, and beyond cap 31 the i32 literal in the grow test overflows'
 A_HASH = 'A-hash: hashing is a deterministic function of the key (uninterpreted H); no other property of the hash is used, so every collision pattern is covered'
 A_CLONE = 'A-clone: Clone::clone of the cache key/value types returns an equal value (the builders instantiate them with Copy pointer types)'
-A_F64 = 'A-f64: the floating-point grow test of the Lru is replaced by an arbitrary function of (num_filled, cap) that can answer true only above half full (0.7 > 0.5)'
+A_F64 = 'A-f64: the floating-point grow test of the Lru is replaced by an arbitrary function of (num_filled, cap) that can answer true only above half full; under C16 this fact is PROVED for the real condition text by the Kani harness k_lru_grow_test_only_above_half (all n, all cap < 32)'
 A_KANI = 'A-kani: soundness of Kani 0.68 / CBMC 6.11; kani::any() ranges over every bit pattern of the type'
 
 prop('C01',
@@ -37,6 +37,7 @@ prop('C01',
 
 prop('C16',
      units=['lru', 'cache'],
+     kani=[{'name': 'k_lru_grow_test_only_above_half'}],
      assumptions=[A_VERUS, A_EXTRACT, A_CAP, A_HASH, A_CLONE, A_F64,
                   'A-fxhashmap: rustc_hash::FxHashMap is replaced by a trusted stub that only promises: get returns nothing or a value inserted under an equal key'],
      replay={'lru': 'lru', 'cache': 'bdd', '*': 'lru'},
@@ -130,6 +131,7 @@ prop('C05',
 
 prop('C02',
      units=['ptr', 'bottomup', 'builder', 'robdd', 'table'],
+     kani=[{'name': 'k_next_power_of_two_ge'}],
      assumptions=[A_VERUS, A_EXTRACT, A_PTREQ, A_CELL, A_TERM, A_CLONE,
                   'A-bump: bumpalo::Bump::alloc returns a reference to a value equal to its argument that is never moved, freed or mutated while the arena lives',
                   'A-psl: a probe sequence is shorter than min(255, cap) (u8 probe counter, no wrap around the whole table); assumed exactly where the counters are incremented',
